@@ -57,3 +57,8 @@ Fixpoint res_filter {A : Type} (p : A -> result bool) (l : list A) : result (lis
 (* truth value of an Optional[list]: None and [] are false *)
 Definition opt_list_truthy {A : Type} (o : option (list A)) : bool :=
   match o with Some (_ :: _) => true | _ => false end.
+(* a[i] = v on a list / numpy array: negative indices wrap once, IndexError (Err tag) outside -len..len-1 *)
+Definition list_set {A : Type} (tag : Z) (l : list A) (i : Z) (v : A) : result (list A) :=
+  let n := Z.of_nat (length l) in
+  let j := if i <? 0 then i + n else i in
+  if (0 <=? j) && (j <? n) then Ok (firstn (Z.to_nat j) l ++ v :: skipn (S (Z.to_nat j)) l) else Err tag.
